@@ -9,6 +9,8 @@ import (
 	"io"
 	"os"
 	"path/filepath"
+	"runtime"
+	"runtime/pprof"
 	"sort"
 	"strings"
 	"sync"
@@ -782,6 +784,20 @@ func TestVerifCoreReplay(t *testing.T) {
 		}
 		mu.Unlock()
 	})
+	if f := os.Getenv("VERIF_MEMPROF"); f != "" { // diagnostic: what is still referenced after all worlds were closed
+		runtime.GC()
+		var ms runtime.MemStats
+		runtime.ReadMemStats(&ms)
+		vhEmit(vhRec{"k": "note", "v": fmt.Sprintf("after GC: heap in use %d MiB, %d goroutines", ms.HeapInuse>>20, runtime.NumGoroutine())})
+		if fh, err := os.Create(f); err == nil {
+			_ = pprof.WriteHeapProfile(fh)
+			_ = fh.Close()
+		}
+		if fh, err := os.Create(f + ".goroutines"); err == nil {
+			_ = pprof.Lookup("goroutine").WriteTo(fh, 1)
+			_ = fh.Close()
+		}
+	}
 	for k, n := range st {
 		vhStat(k, n)
 	}
